@@ -85,6 +85,27 @@ def _c07_parts(tier):
              "per_fork": 1, "wall_s": 120 if q else 1800, "run_timeout_s": 180}]
 
 
+def _c07_derive(stats, runs):
+    """Reach of the schedule search: candidate-set sizes and the PCT detection bound 1/(k * n^(d-1)) per run."""
+    runs = max(1, runs)
+    n_all = stats.get("sim_steps", 0) / runs
+    n_shared = stats.get("shared_state_steps", 0) / runs
+    k = 2.33
+    out = {
+        "avg_line_steps_per_run (candidate switch points, untargeted)": round(n_all),
+        "avg_shared_state_steps_per_run (candidate switch points, targeted, all groups)": round(n_shared),
+        "avg_preemptions_per_run": round(stats.get("fault:PREEMPT", 0) / runs, 2),
+        "lock_contentions_resolved_by_scheduler": stats.get("lock_contention", 0),
+    }
+    for d in (2, 3):
+        for name, n in (("untargeted", n_all), ("targeted", n_shared)):
+            if n > 0:
+                p = 1.0 / (k * (n ** (d - 1)))
+                out[f"pct_bound_per_run_depth{d}_{name}"] = float(f"{p:.3g}")
+                out[f"expected_runs_to_hit_depth{d}_{name}"] = round(1 / p)
+    return out
+
+
 def _c16_parts(tier):
     from sim.engines import media
     q = tier == "quick"
@@ -122,6 +143,7 @@ SPECS = {
     },
     "C07": {
         "level": "exploration",
+        "derive": _c07_derive,
         "parts": _c07_parts,
         "rule": "case = (2-3 tasks drawn from a stratum, schedule); distinct = stratum x blake2b of the schedule projected on "
                 "shared-state accesses (sequence of (thread, file:line) at which ownership of shared state changed hands); "
